@@ -67,7 +67,15 @@ class NeedMore(Exception):
     """The schedule ended before the queue did."""
 
 
+class Unobservable(Exception):
+    """The queue's iterations cannot be observed on this tree (the debug records / private methods the driver taps are not
+    there any more -- e.g. after a refactoring of job_queue.py): the iteration-grain comparison is skipped, nothing is
+    concluded from it.  The node-level clauses stay covered by the whole-submission runs."""
+
+
 class _Driver:
+    sleeps = 0                      # sleeps of the queue since the last observed iteration
+
     def __init__(self, inp, sched):
         self.inp, self.sched = inp, sched
         self.k = 0                  # iterations begun
@@ -86,6 +94,7 @@ class _Driver:
                 self.alive.discard(j)
                 self.exited.add(j)
         self.k += 1
+        self.sleeps = 0
         self.state = "polling"
 
 
@@ -134,10 +143,14 @@ def _install():
         return _INSTALLED
     import jade.jobs.job_queue as jq
     import jade.jobs.async_cli_command as acc
+    if not all(hasattr(acc.AsyncCliCommand, a) for a in ("run", "cancel", "_complete")) or not hasattr(jq, "time"):
+        raise Unobservable("AsyncCliCommand.run/cancel/_complete or job_queue.time not found")
     real_run, real_cancel, real_complete = acc.AsyncCliCommand.run, acc.AsyncCliCommand.cancel, acc.AsyncCliCommand._complete
 
     def run_(self):
         r = real_run(self)
+        if not hasattr(_DRV[0].queue, "_outstanding_jobs"):
+            raise Unobservable("JobQueue._outstanding_jobs not found")
         _DRV[0].ev.append(["start", self.name, len(_DRV[0].queue._outstanding_jobs) + 1])
         return r
 
@@ -156,7 +169,14 @@ def _install():
     import types
     # module-local shims: the real subprocess and time modules stay as they are for everybody else
     acc.subprocess = types.SimpleNamespace(Popen=_FakePopen)
-    jq.time = types.SimpleNamespace(sleep=lambda s: None, time=_time.time)
+    def _sleep(_s):
+        d = _DRV[0]
+        if d is not None:
+            d.sleeps += 1
+            # a whole polling cycle went by and no iteration was observed: the records the driver listens for are gone
+            if d.sleeps >= 3:
+                raise Unobservable("no iteration of _check_completions observed across three polling cycles")
+    jq.time = types.SimpleNamespace(sleep=_sleep, time=_time.time)
     logger = logging.getLogger("jade.jobs.job_queue")
     logger.setLevel(logging.DEBUG)
     logger.propagate = False
@@ -194,6 +214,8 @@ def run_queue(inp, sched):
         q.run(jobs)
     except NeedMore:
         end = "more"
+    except Unobservable:
+        raise
     except Exception as e:     # noqa
         end, err = "error", f"{type(e).__name__}: {e}"
     finally:
